@@ -5,4 +5,5 @@ void registerAll()
     reg_parser();
     reg_sock();
     reg_srv();
+    reg_copier();
 }
